@@ -152,6 +152,8 @@ def _work(chunk):
             for par in LY.forests(4):
                 for fname, fn, ref in (('callable-name-ab', lambda t: t.name == 'ab', lambda k: pop['name'][k] == 'ab'),
                                        ('callable-true', lambda t: True, lambda k: True),
+                                       # the documented parameter passed by its name: tasks(key=fn), remove_all(key=fn)
+                                       ('callable-by-keyword', lambda t: t.name == 'ab', lambda k: pop['name'][k] == 'ab'),
                                        ('no-filter', None, lambda k: True),
                                        ('kw-milestone', None, lambda k: pop['milestone'][k] is True),
                                        ('kw-estimate', None, lambda k: value(pop, par, k, 'estimate') == 2)):
@@ -163,6 +165,8 @@ def _work(chunk):
                         case = {'population': pi, 'parents': list(par), 'filter': fname, 'target': target, 'ids': list(idmap)}
                         kw = {'milestone': True} if fname == 'kw-milestone' else {'estimate': 2} if fname == 'kw-estimate' else {}
                         args = (fn,) if fn is not None else ()
+                        if fname == 'callable-by-keyword':
+                            args, kw = (), {'key': fn}
                         acc.count('evaluations')
                         acc.count('nontrivial')
                         try:
